@@ -42,6 +42,7 @@ type (
 	EQuant struct {
 		Forall bool
 		Vars   []string
+		Sorts  []string // per variable: "" (Int) or a sort name (Str, Bool)
 		Body   Expr
 	}
 	ELet struct {
@@ -107,6 +108,7 @@ type LoopC struct {
 	Back  []Clause
 	Iter  []Clause
 	Exit  []Clause
+	Ret   []Clause // must hold at every return statement inside the loop body
 	Entry []Clause // asserted when the loop is entered (not an invariant)
 	Bound int
 }
@@ -267,20 +269,31 @@ func (p *cparser) parseExpr(minPrec int) Expr {
 	t := p.peek()
 	if t.kind == "id" && (t.val == "forall" || t.val == "exists") {
 		p.next()
-		var vars []string
+		var vars, sorts []string
 		for {
 			v := p.next()
 			if v.kind != "id" {
 				panic(fmt.Errorf("bound variable expected, got %q", v.val))
 			}
 			vars = append(vars, v.val)
+			// optional sort: `k: Str` (default Int)
+			srt := ""
+			if p.peek().kind == "op" && p.peek().val == ":" {
+				p.next()
+				st := p.next()
+				if st.kind != "id" {
+					panic(fmt.Errorf("sort name expected after ':'"))
+				}
+				srt = st.val
+			}
+			sorts = append(sorts, srt)
 			if !p.accept(",") {
 				break
 			}
 		}
 		p.expect("::")
 		body := p.parseExpr(0)
-		return &EQuant{Forall: t.val == "forall", Vars: vars, Body: body}
+		return &EQuant{Forall: t.val == "forall", Vars: vars, Sorts: sorts, Body: body}
 	}
 	if t.kind == "id" && t.val == "let" {
 		p.next()
@@ -436,7 +449,7 @@ func parseExprString(s string) (e Expr, err error) {
 // ---------- file-level parser ----------
 
 var itemKeywords = map[string]bool{"uf": true, "pure": true, "func": true, "extern": true, "trusted": true, "lemma": true, "ghost": true}
-var clauseKeywords = map[string]bool{"assumes": true, "entry": true, "param": true, "assume": true, "show": true, "exit": true, "uses": true, "spec": true, "cut": true, "assert": true, "arith": true, "requires": true, "ensures": true, "modifies": true, "decreases": true, "split": true,
+var clauseKeywords = map[string]bool{"returns": true, "assumes": true, "entry": true, "param": true, "assume": true, "show": true, "exit": true, "uses": true, "spec": true, "cut": true, "assert": true, "arith": true, "requires": true, "ensures": true, "modifies": true, "decreases": true, "split": true,
 	"loop": true, "invariant": true, "backedge": true, "iteration": true, "bounded": true, "panics": true}
 
 // readContractLines returns the logical lines (keyword + text) of all //@ lines
@@ -867,7 +880,7 @@ func ParseContracts(paths []string) (*Contracts, error) {
 						} else {
 							cur.Dec = append(cur.Dec, c)
 						}
-					case "invariant", "backedge", "iteration", "exit", "entry":
+					case "invariant", "backedge", "iteration", "exit", "entry", "returns":
 						if curLoop == nil {
 							return nil, fail(fmt.Errorf("%s outside loop", l.kw))
 						}
@@ -880,6 +893,8 @@ func ParseContracts(paths []string) (*Contracts, error) {
 							curLoop.Iter = append(curLoop.Iter, c)
 						case "exit":
 							curLoop.Exit = append(curLoop.Exit, c)
+						case "returns":
+							curLoop.Ret = append(curLoop.Ret, c)
 						case "entry":
 							curLoop.Entry = append(curLoop.Entry, c)
 						}
